@@ -139,7 +139,16 @@ def rec_item_src(it, callee):
     if k == "innerrec":
         return "{% for m in n.children recursive %}[{{ m.name }}{{ loop(m.children) }}]" + ("{% else %}0" if it[1] else "") + "{% endfor %}"
     if k == "fail":
-        return {"macro_other": "{{ xcall(%s, n.children) }}" % callee, "include": "{% include 'recinc' %}"}[it[2]]
+        how = it[2]
+        if how.startswith("block_"):
+            # a loop() call from a block nested in the loop body: a block is compiled into its OWN instruction stream (same
+            # template name), the loop's pc means nothing there - the engine must refuse the call
+            c = BLOCK_CALLS[how.split("_", 2)[1]] % ("lp" if how.split("_", 2)[1] == "lp" else callee)
+            where = how.split("_", 2)[2]
+            blk = "{% block ch %}" + c + "{% endblock %}"
+            return {"plain": blk, "with": "{% with w = 1 %}" + blk + "{% endwith %}", "for": "{% for q in [1] %}{% block ch %}" + (BLOCK_CALLS[how.split("_", 2)[1]] % "lp") + "{% endblock %}{% endfor %}",
+                    "nested": "{% block outer_b %}<" + blk + ">{% endblock %}", "self": "{{ self.ch() }}", "child": "{% block ch %}{% endblock %}"}[where]
+        return {"macro_other": "{{ xcall(%s, n.children) }}" % callee, "include": "{% include 'recinc' %}"}[how]
     raise ValueError(it)
 
 
@@ -167,6 +176,23 @@ def rec_tree_enc(ts):
     for t in ts:
         out += [ord(t["name"]), 1 if t["via"] else 0, len(t["children"])] + rec_tree_enc(t["children"])
     return out
+
+
+BLOCK_CALLS = {"emit": "{{ %s(n.children) }}", "filter": "{{ %s(n.children)|upper }}", "set": "{%% set s = %s(n.children) %%}({{ s }})",
+               "cat": "{{ n.name ~ %s(n.children) }}", "lp": "{{ %s(n.children) ~ 'x' }}"}
+
+
+def rec_templates(body, has_else, after):
+    """-> (source of main, additional templates): members whose call sits in a block declared elsewhere (self.ch()) or overridden by a child"""
+    src = rec_template(body, has_else, after)
+    hows = [it[2] for it in body if it[0] == "fail" and it[2].startswith("block_")]
+    for how in hows:
+        call = BLOCK_CALLS[how.split("_", 2)[1]] % "loop"
+        if how.endswith("_self"):
+            src += "{% if false %}{% block ch %}" + call + "{% endblock %}{% endif %}"
+        elif how.endswith("_child"):
+            return "{% extends 'rec_lay' %}{% block ch %}" + call + "{% endblock %}", {"rec_lay": src}
+    return src, {}
 
 
 def rec_template(body, has_else, after):
@@ -226,6 +252,11 @@ def rec_family(rng, nrandom):
             out.append(("after:%s:%s" % (p, has_else), [("quiet", "setns"), ("txt", 91), ("name",), ("call", p), ("txt", 93)], has_else, True))
         out.append(("err:macro_other:%s" % has_else, [("txt", 91), ("name",), ("fail", 3, "macro_other"), ("txt", 93)], has_else, False))
         out.append(("err:include:%s" % has_else, [("txt", 91), ("name",), ("fail", 16, "include"), ("txt", 93)], has_else, False))
+        for cs in BLOCK_CALLS:
+            for where in ("plain", "with", "for", "nested", "self", "child"):
+                if has_else and (len(out) % 2):
+                    continue
+                out.append(("err:block_%s_%s:%s" % (cs, where, has_else), [("txt", 91), ("name",), ("fail", 3, "block_%s_%s" % (cs, where)), ("txt", 93)], has_else, False))
     # random bodies
     def rnd_items(depth, esc, via_family, in_forn, budget):
         items = []
@@ -803,7 +834,9 @@ def main():
                 ctxs.append({"tree": t, "tree2": t2 or [], "lt": "<"})
                 rec_cases.append(rec_case(body, has_else, t, t2))
             rec_slots.append((len(T), len(ctxs)))
-            add("rec:" + label, rec_template(body, has_else, after), ctxs=ctxs, aux=REC_AUX, sentinel="|<after")
+            rsrc, raux = rec_templates(body, has_else, after)
+            raux.update(REC_AUX)
+            add("rec:" + label, rsrc, ctxs=ctxs, aux=raux, sentinel="|<after")
             for it in json.dumps(body).split('"call", "')[1:]:
                 hist["rec_call_position_" + it.split('"')[0]] += 1
             hist["rec_family_else" if has_else else "rec_family_noelse"] += 1
